@@ -44,3 +44,28 @@ def run(ck):
         ck.violation({"property": "C02", "kind": "model/implementation disagree; the C02 monitors still accept every observed trace",
                       "case": worst, "broken": "correspondence Ingest.sstep vs writer/service (blocks, events)"}, no_input=True)
     ic.coverage_level1(ck, res)
+    run_http(ck)
+
+
+def run_http(ck):
+    """level 2: blocks produced behind the real HTTP handlers (rows recognised by their full content)"""
+    res = ic.run_level2(ck, "C02")
+    if res is None:
+        return
+    byid = res["byid"]
+    ck.obligation("harness executed every HTTP script", not res["broken"],
+                  "%d scripts; first: %s" % (len(res["broken"]), res["broken"][0]["err"] if res["broken"] else ""))
+    ck.obligation("correspondence: model blocks = observed blocks (as row sets) on %d HTTP scripts" % len(res["good"]), not res["mism"],
+                  "mismatching case ids: %s" % res["mism"][:10])
+    bad = sorted(set(res["v2"]) | set(c["id"] for c in res["nontab"]))
+    ck.obligation("every block behind the HTTP handlers is a table of distinct submitted rows", not bad, "violating case ids: %s" % bad[:10])
+    if bad:
+        worst = min((byid[i] for i in bad), key=lambda c: (len(c["ops"]), len(c["reqs"])))
+        ck.violation({"property": "C02", "kind": "a block sent behind the HTTP handlers is not a table of whole submitted rows",
+                      "explanation": "columns of different length (counts), a row that is not the content of any submitted row (rid -1) or a duplicated row in an observed block",
+                      "case": worst, "replay": "harness ingest --level 2 --cases <file with the case object on one line>"})
+    elif res["mism"] or res["broken"]:
+        b2 = [byid[i] for i in res["mism"]] or res["broken"]
+        worst = min(b2, key=lambda c: (len(c["ops"]), len(c["reqs"])))
+        ck.violation({"property": "C02", "kind": "model/implementation disagree on an HTTP script", "case": worst}, no_input=True)
+    ic.coverage_level2(ck, res)
